@@ -1,7 +1,7 @@
 """C20 - policy wildcards and documents: narrow structural claim (DESIGN.md section 3, C20)."""
 import re
 
-from .. import flow, guards, paths
+from .. import flow, guards, paths, inline
 from ..facts import callee_def, short
 from ..report import AnchorMissing
 from .sigcore import first_writes_from
@@ -41,6 +41,10 @@ def rule_r1(chk, db):
             p = flow.op_place(t["discr"])
             is_u8 = p is not None and ((not p["proj"] and b.locals[p["l"]] == "u8") or
                                        (any(isinstance(e, dict) and ("idx" in e or "cidx" in e) for e in p["proj"]) and "[u8]" in b.locals[p["l"]]))
+            if p is not None and p["proj"] and not is_u8:
+                # `match slice.get(i).copied() { Some(b'*') => .. }`: a switch on the payload of an Option<u8>
+                names = [e.get("n") for e in p["proj"] if isinstance(e, dict)]
+                is_u8 = names[:2] == ["Some", "0"] and b.locals[p["l"]].replace(" ", "") in ("core::option::Option<u8>", "core::option::Option<&u8>")
             if p is not None and not p["proj"] and not is_u8:
                 df = flow.single_def(b, p["l"])
                 if df and df["kind"] == "assign" and df["rv"]["k"] == "use":
@@ -100,6 +104,43 @@ def rule_r3(chk, db):
     if b is None:
         raise AnchorMissing("is_match not found")
     mp = [(bi, t) for bi, t in b.calls() if short(callee_def(t)) == "match_pattern"]
+    if not mp:
+        # `self.patterns.iter().any(|p| match_pattern(p, input))`: "exists" by the contract of Iterator::any, provided the closure's verdict is
+        # match_pattern's and is_match returns any()'s verdict unchanged
+        ok = False
+        where = b.loc()
+        for bi, t in b.calls():
+            if callee_def(t).endswith("iterator::Iterator::any") and len(t["args"]) == 2:
+                where = b.loc(bi)
+                cb = None
+                for l, _ in (flow.resolve_chain(b, t["args"][1]) or []):
+                    for df in b.defs().get(l, []):
+                        if df["kind"] == "assign" and df["rv"]["k"] == "agg" and df["rv"].get("agg") == "closure":
+                            cb = db.body(df["rv"].get("def", ""))
+                if cb is None:
+                    continue
+                cmp_ = [(cbi, ct) for cbi, ct in cb.calls() if short(callee_def(ct)) == "match_pattern"]
+                crw = flow.return_writes(cb)
+                verdict_is_mp = len(cmp_) == 1 and bool(crw) and all(
+                    (w["kind"] == "call" and w["term"] is cmp_[0][1]) or
+                    (w["kind"] == "use" and any(cb2 == cmp_[0][0] for cb2, _, _ in flow.backward(cb, w["rv"]["ops"][0], at=w["bi"], through_calls=False).calls))
+                    for w in crw)
+                rw0 = flow.return_writes(b)
+                ret_is_any = bool(rw0) and all(
+                    (w["kind"] == "call" and w["term"] is t) or
+                    (w["kind"] == "use" and [cb2 for cb2, _, _ in flow.backward(b, w["rv"]["ops"][0], at=w["bi"], through_calls=False).calls] == [bi])
+                    for w in rw0)
+                recv = flow.backward(b, t["args"][0], at=bi)
+                over_patterns = ("PatternSet", "patterns") in recv.fields
+                args_ok = False
+                if cmp_:
+                    s0 = flow.backward(cb, cmp_[0][1]["args"][0], at=cmp_[0][0])
+                    args_ok = ("Pattern", "bytes") in s0.fields
+                ok = verdict_is_mp and ret_is_any and over_patterns and args_ok
+        chk.verdict(ok, "R3", "true-only-if-some-pattern-matches", where, "is_match is neither a loop over the patterns nor `patterns.iter().any(|p| match_pattern(p.bytes, input))`")
+        chk.verdict(ok, "R3", "false-only-after-all-patterns", where, "is_match can return false before every pattern has been tried")
+        chk.floor("R3", 1 if ok else 0, 1, "match_pattern applications in is_match")
+        return
     chk.floor("R3", len(mp), 1, "match_pattern calls in is_match")
     rw = flow.return_writes(b)
     trues = [w["bi"] for w in rw if w["kind"] == "use" and (flow.const_of(b, w["rv"]["ops"][0]) or {}).get("v") == "1"]
@@ -180,6 +221,18 @@ def rule_r4(chk, db):
                 csl = flow.backward(b, cur, at=b2)
                 if l in csl.locals and (want is None or want in len_of(ln, b2)):
                     ok = True
+        if not ok:
+            # `slice.get(cursor)` returned Some: the cursor is within that slice (the checked form of `cursor < slice.len()`)
+            for x in f:
+                if x[0] == "enum" and x[2] == frozenset(["Some"]) and x[3] is not None:
+                    for gb, gt in b.calls():
+                        if callee_def(gt) in ("core::slice::<impl [T]>::get", "core::str::<impl str>::get") and len(gt["args"]) == 2:
+                            o = flow.outcomes_of_call(b, gb)
+                            if x[3][0] in o.carriers or x[3][0] == gt["dst"]["l"]:
+                                csl = flow.backward(b, gt["args"][1], at=gb)
+                                ssl = flow.backward(b, gt["args"][0], at=gb)
+                                if l in csl.locals and (want is None or want in {b.local_name(pl) for pl, _ in ssl.params}):
+                                    ok = True
         chk.verdict(ok, "R4", "advance-guarded:%s#%d" % (name, bi), b.loc(bi),
                     "`%s += 1` is not dominated by `%s < %s.len()`: the matcher can step past the end (e.g. `?` consuming a character that does not exist, so `\"a?*\"` matches `\"a\"`)" %
                     (name, name, want or "slice"))
@@ -192,7 +245,8 @@ def rule_r4(chk, db):
             f = guards.dominating_facts(b, bi)
             ok = any(x[0] == "cmp" and x[1] in ("Lt", "Gt", "Le", "Ge") for x in f)
             chk.verdict(ok, "R4", "index-guarded#%d" % bi, b.loc(bi), "a slice index is not dominated by an explicit bound test (would panic instead of returning false)", nontrivial=False)
-    chk.floor("R4.index", n_idx, 2, "index sites in match_pattern")
+    n_get = len([1 for _, t in b.calls() if callee_def(t) in ("core::slice::<impl [T]>::get", "core::str::<impl str>::get")])
+    chk.floor("R4.index", n_idx + n_get, 2, "index / get sites in match_pattern")
     # sentinel: usize::MAX - 1, so that `s_back + 1` cannot overflow
     sent = []
     for bi, si, st in b.stmts():
@@ -211,6 +265,20 @@ VISIT_VARIANT = {
 }
 
 
+def _str_values(db, body, t):
+    """string values among a call's arguments: literals, and named string constants of the workspace"""
+    out = []
+    for a in t["args"]:
+        c = flow.const_of(body, a)
+        if c is None:
+            continue
+        if c.get("c") == "str":
+            out.append(c["v"])
+        elif c.get("c") == "item":
+            out += db.const_str(c["def"]) or []
+    return out
+
+
 def rule_r5(chk, db):
     for ty, table in VISIT_VARIANT.items():
         # serializer arms
@@ -225,7 +293,8 @@ def rule_r5(chk, db):
         got = {short(b.name): b for b in vis if short(b.name).startswith("visit_")}
         chk.verdict(set(got) == set(table), "R5", ty + ".visitor-methods", s.loc(), "Visitor of %s overrides %s (expected %s)" % (ty, sorted(got), sorted(table)))
         # serializer shapes: `*` literal for Wildcard; sequences for More
-        emits_star = any(paths.str_args(s, t) == ["*"] and short(callee_def(t)) == "serialize_str" for _, t in s.calls())
+        si = inline.inlined(db, s)
+        emits_star = any(_str_values(db, x, t) == ["*"] and short(callee_def(t)) == "serialize_str" for x in [si] + db.nested(s, include_self=False) for _, t in x.calls())
         if "Wildcard" in {v for vs in table.values() for v in vs}:
             chk.verdict(emits_star, "R5", ty + ".wildcard-is-star", s.loc(), "the wildcard variant of %s is not serialised as the string \"*\"" % ty)
         for nm, b in got.items():
@@ -241,7 +310,7 @@ def rule_r5(chk, db):
                             variants.add(short(a["def"]))
             chk.verdict(variants == table.get(nm, set()), "R5", "%s.%s" % (ty, nm), b.loc(), "%s::%s builds variants %s (expected %s): single values and lists would not stay distinct" % (ty, nm, sorted(variants), sorted(table.get(nm, ()))))
             if nm == "visit_str" and "Wildcard" in table.get(nm, ()):
-                lits = [l for x in db.nested(b) for _, t in x.calls() for l in paths.str_args(x, t)]
+                lits = [l for x in [inline.inlined(db, y) for y in db.nested(b)] for _, t in x.calls() for l in _str_values(db, x, t)]
                 chk.verdict("*" in lits, "R5", "%s.%s.star-literal" % (ty, nm), b.loc(), "%s::visit_str maps something other than \"*\" to the wildcard" % ty, nontrivial=False)
 
 
